@@ -353,6 +353,169 @@ class Gen:
             self.cmd("newdist %d %d %s" % (j, i, fmt_dist(self.theory, d)))
         self.cov["boundary_newdist"] = self.cov.get("boundary_newdist", 0) + 6
 
+    # -------------------------------------------------------------------------------------------
+    def bound_s(self, r, e=0):
+        return str(r) if self.theory == "idl" else "%d/1,%d/1" % (r, e)
+
+    def fresh(self, r):
+        """the variable of the literal just returned by newdist (None for a shortcut)"""
+        return int(r[5:]) if r and r.startswith("lit +") and r != "lit +0" else None
+
+    def retighten(self):
+        """the SAME cell tightened two or three times within ONE level (directly and through a third point), then the level is
+        popped and the restored value is looked at, used by new constraints and by a partial re-assertion"""
+        rng = self.rng
+        self.init(rng.choice([3, 5, 16]))
+        self.new_vars(rng.randint(3, 5))
+        n = self.st.n
+        a, b, c = rng.sample(range(n), 3)
+        eps = (lambda: rng.choice([0, 0, -1, 1])) if self.theory == "rdl" else (lambda: 0)
+        hi = rng.randint(9, 14)
+        steps = sorted({hi - rng.randint(1, 3), hi - rng.randint(4, 6), hi - rng.randint(7, 9)}, reverse=True)
+        root = self.fresh(self.cmd("newdist %d %d %s" % (a, b, self.bound_s(hi, eps()))))
+        direct = [self.fresh(self.cmd("newdist %d %d %s" % (a, b, self.bound_s(d, eps())))) for d in steps[:2]]
+        w1 = rng.randint(0, 2)
+        via = [self.fresh(self.cmd("newdist %d %d %s" % (a, c, self.bound_s(w1, eps())))),
+               self.fresh(self.cmd("newdist %d %d %s" % (c, b, self.bound_s(steps[-1] - w1 - rng.randint(0, 1), eps()))))]
+        back = self.fresh(self.cmd("newdist %d %d %s" % (b, a, self.bound_s(-rng.randint(0, 2), eps()))))
+        for _ in range(rng.randint(0, 3)):
+            self.new_dist((a, b))
+        if root is not None and rng.random() < 0.7:
+            self.cmd("assert %d 1" % root)
+            if not self.settle():
+                return
+        if rng.random() < 0.4 and back is not None and self.st.value(back) == "U":
+            self.cmd("assume %d 1" % back)
+            if not self.settle():
+                return
+        lits = [v for v in direct + via if v is not None and self.st.value(v) == "U"]
+        if rng.random() < 0.5:
+            rng.shuffle(lits)
+        base = self.level
+        self.cmd("push")
+        for v in lits:
+            self.cmd("enq %d 1" % v)
+        if rng.random() < 0.5:
+            for _ in lits:
+                if self.dead or self.conflict_pending() or not self.st.Q:
+                    break
+                self.cmd("prop")
+                if rng.random() < 0.3:
+                    self.cmd("dist %d %d" % (a, b))
+        if not self.conflict_pending():
+            self.cmd("drain")
+        self.cmd("dist %d %d" % (a, b))
+        self.cmd("dist %d %d" % (b, a))
+        while self.level > base and not self.dead:
+            self.cmd("pop")
+        # the restored value: queries, constraints decided / not decided by it, and a partial re-assertion
+        self.cmd("dist %d %d" % (a, b))
+        self.cmd("bounds %d" % b)
+        self.boundary_cell(a, b)
+        if lits:
+            v = rng.choice(lits)
+            if self.st.value(v) == "U":
+                self.cmd("assume %d 1" % v)
+                if self.settle():
+                    self.cmd("dist %d %d" % (a, b))
+        und = self.undefined_constraints()
+        if und:
+            self.cmd("assume %d %d" % (rng.choice(und), rng.randrange(2)))
+            self.settle()
+        while self.level > 0 and not self.dead:
+            self.cmd("pop")
+        self.cmd("dist %d %d" % (a, b))
+
+    def boundary_cell(self, i, j):
+        import math
+        from dl_common import fmt_dist
+        if self.dead:
+            return
+        g = self.st.D[i][j]
+        if g[0] == math.inf:
+            return
+        u = (Fraction(1), Fraction(0)) if self.theory == "idl" else (Fraction(0), Fraction(1))
+        for d in (g, (g[0] - u[0], g[1] - u[1])):
+            self.cmd("newdist %d %d %s" % (i, j, fmt_dist(self.theory, d)))
+        for d in ((-g[0] - u[0], -g[1] - u[1]), (-g[0], -g[1])):
+            self.cmd("newdist %d %d %s" % (j, i, fmt_dist(self.theory, d)))
+
+    def prepend(self, real):
+        """a new edge from -> to whose `to` already reaches u through a chain of two or three asserted (non-root) edges; undecided
+        constraints on (from, u) / (u, from) make the theory explain the new distances through the prepended predecessor; then a
+        conflict through (from, u), pops and a partial re-assertion of the chain"""
+        rng = self.rng
+        self.init(rng.choice([5, 16]))
+        self.new_vars(rng.randint(4, 6))
+        n = self.st.n
+        k = rng.choice([2, 2, 3]) if n >= 6 else 2
+        pts = rng.sample(range(1, n), k + 2) if n - 1 >= k + 2 else rng.sample(range(n), k + 2)
+        f, chain = pts[0], pts[1:]                       # f -> chain[0] -> chain[1] -> ... -> chain[-1] = u
+        u = chain[-1]
+        eps = (lambda: rng.choice([0, 0, -1])) if self.theory == "rdl" else (lambda: 0)
+        ws = [rng.randint(-1, 4) for _ in range(k)]
+        w0 = rng.randint(-1, 3)
+        chain_lits = [self.fresh(self.cmd("newdist %d %d %s" % (chain[x], chain[x + 1], self.bound_s(ws[x], eps())))) for x in range(k)]
+        head = self.fresh(self.cmd("newdist %d %d %s" % (f, chain[0], self.bound_s(w0, eps()))))
+        total = w0 + sum(ws)
+        probes = []
+        for tgt, tot in [(u, total), (chain[1], w0 + ws[0])]:
+            probes.append(self.fresh(self.cmd("newdist %d %d %s" % (f, tgt, self.bound_s(tot + rng.choice([0, 0, 1]), 0)))))
+            probes.append(self.fresh(self.cmd("newdist %d %d %s" % (tgt, f, self.bound_s(-tot - rng.choice([1, 1, 2]), 0)))))
+        closing = self.fresh(self.cmd("newdist %d %d %s" % (u, f, self.bound_s(-total - 3, 0))))
+        if any(v is None for v in chain_lits + [head]):
+            return
+        ass = (lambda v: "sassume %d 1" % v) if real else (lambda v: "assume %d 1" % v)
+        pop = "spop" if real else "pop"
+        if real:
+            self.cmd("sprop")
+        for v in chain_lits:
+            self.cmd(ass(v))
+            if self.dead or (not real and not self.settle()):
+                return
+        self.cmd(ass(head))                                # the prepended edge: lemmas for the probes, explained through (f, u)
+        if self.dead or (not real and not self.settle()):
+            return
+        self.cmd("dist %d %d" % (f, u))
+        self.cmd(pop)
+        if not real:
+            # a conflict whose explanation walks row f from u
+            if closing is not None and self.st.value(closing) == "U" and self.st.value(head) == "U":
+                self.cmd("push")
+                self.cmd("enq %d 1" % head)
+                self.cmd("enq %d 1" % closing)
+                self.cmd("drain")
+                self.cmd("pop")
+            for p in probes:
+                if p is not None and self.st.value(p) == "U" and self.st.value(head) == "U" and rng.random() < 0.5:
+                    self.cmd("push")
+                    self.cmd("enq %d 1" % head)
+                    self.cmd("enq %d %d" % (p, rng.randrange(2)))
+                    self.cmd("drain")
+                    self.cmd("pop")
+        while self.level > 0 and not self.dead:
+            self.cmd(pop)
+        # partial re-assertion: the new edge and only a part of the chain
+        part = [head] + chain_lits[:rng.randint(1, k - 1)]
+        if rng.random() < 0.5:
+            part.reverse()
+        for v in part:
+            if self.dead:
+                return
+            if self.st.value(v) == "U":
+                self.cmd(ass(v))
+                if not real and not self.settle():
+                    return
+        for tgt in (u, chain[1]):
+            self.cmd("dist %d %d" % (f, tgt))
+        for p in probes:
+            if p is not None and self.st.value(p) == "U" and rng.random() < 0.5:
+                self.cmd(ass(p))
+                if not real and not self.settle():
+                    return
+        while self.level > 0 and not self.dead:
+            self.cmd(pop)
+
     def rel(self, count):
         rng = self.rng
         self.init(rng.choice([3, 5, 16]))
